@@ -413,7 +413,7 @@ def r7_local_frames(ctx, F):
     from . import lowering, execmodel
     L = lowering.lower_all(F)
     PP = execmodel.P_
-    grid = [(n, i) for n in (1, 2, 7, 65535) for i in sorted({0, n // 2, n - 1})]
+    grid = [(n, i) for n in ((1, 2, 7, 65535) if ctx.tier != "thorough" else (1, 2, 3, 4, 7, 8, 255, 256, 1000, 65534, 65535)) for i in sorted({0, n // 2, n - 1})]
     cnt = 0
     for v in ("LocLoad", "LocLoadW", "LocStore", "LocStoreW", "Locaddr"):
         ctx.inst(key=v, nontrivial=True)
@@ -430,7 +430,7 @@ def r7_local_frames(ctx, F):
             okr = len(rng) == 1 and rng[0][1] == 1 and "imm_u16" in repr(rng[0][0].args[0])
             if okr:
                 kind, lo_, hi_ = rng[0][0].args[1:4]
-                for n in (1, 2, 7, 65535):
+                for n in ((1, 2, 7, 65535) if ctx.tier != "thorough" else (1, 2, 3, 4, 7, 8, 255, 256, 1000, 65534, 65535)):
                     lo_v, hi_v = execmodel.ev(lo_, {"num_proc_locals": n}), execmodel.ev(hi_, {"num_proc_locals": n})
                     if lo_v != 0 or hi_v is None or hi_v + (1 if kind == "RangeInclusive" else 0) != n:
                         okr = False
